@@ -273,6 +273,27 @@ impl OwnedTerm {
     pub fn as_integer(&self) -> Option<i64> {
         match self {
             OwnedTerm::Integer(i) => Some(*i),
+            // The decoder yields `BigInt` for every SMALL_BIG_EXT/LARGE_BIG_EXT, which is how
+            // any integer outside the i32 range travels, so an i64 may well arrive as one.
+            OwnedTerm::BigInt(big) => {
+                let significant = big
+                    .digits
+                    .iter()
+                    .rposition(|&d| d != 0)
+                    .map_or(0, |pos| pos + 1);
+                if significant > 8 {
+                    return None;
+                }
+                let mut magnitude = 0u64;
+                for (i, &d) in big.digits.iter().take(significant).enumerate() {
+                    magnitude |= (d as u64) << (i * 8);
+                }
+                if big.sign.is_negative() {
+                    0i64.checked_sub_unsigned(magnitude)
+                } else {
+                    i64::try_from(magnitude).ok()
+                }
+            }
             _ => None,
         }
     }
